@@ -17,5 +17,6 @@ CONSTANTS
   MaxFrames = 0
   RawOps = TRUE
   CallOps = FALSE
+  Emitting = TRUE
   StopOps = FALSE
   MaxUsed = 16
